@@ -29,7 +29,7 @@ from .common import Ctx, to_wire
 
 META = {
     "rule": "frames: one case for every F in 1..200 (quick: B, dtype, modes random per F; thorough: 2 per F); chunks: every "
-            "composition of F for F<=6 (quick) / F<=8 (thorough) plus random chunkings of F up to 200; per case the data are "
+            "composition of F for F<=5 + 12 sampled compositions of 6,7 (quick) / all for F<=8 (thorough) plus random chunkings of F up to 200; per case the data are "
             "drawn from ladders: dt in {1e-4..1} const/varying, |gyro*dt| in {0, Taylor band <= eps, small, moderate, up to 7 rad}, "
             "|acc| in {0..1e3}, gravity in {0, 9.81007}, initial state default/shared/per-item; non-trivial = some gyro or acc "
             "non-zero; distinct by (stream, dtype, B, rank, F, #chunks, gyro/acc/dt modes, known-rot, gravity, prop_cov, reset)",
@@ -746,13 +746,22 @@ def gen_cases(ctx: Ctx):
                 propc = True if F <= 64 else rng.random() < 0.35
             cases.append(base_case(rng, "frames", [F], B=B, prop_cov=propc, reset=(not propc) or rng.random() < 0.3))
     # --- chunks: all compositions for small F
-    Fmax = ctx.pick(6, 8)
+    Fmax = ctx.pick(5, 8)
     for F in range(2, Fmax + 1):
         for parts in compositions(F):
             if len(parts) == 1:
                 continue
             cases.append(base_case(rng, "chunks", parts, B=rng.choice([1, 1, 2, 3]),
                                    rank=rng.choice([3, 3, 3, 2, 1 if max(parts) == 1 else 3])))
+    if ctx.quick:       # a sample of the compositions of 6 and 7 (all of them in the thorough tier)
+        for F in (6, 6, 6, 6, 6, 6, 7, 7, 7, 7, 7, 7):
+            parts = rng.choice([p_ for p_ in compositions(F) if len(p_) > 1])
+            cases.append(base_case(rng, "chunks", parts, B=rng.choice([1, 2]), rank=rng.choice([3, 3, 2])))
+    # --- rank-1 / rank-2 inputs (always present)
+    for n in (1, 2, 3, 5):
+        cases.append(base_case(rng, "chunks", [1] * n, B=1, rank=1))
+    for parts in ([3], [2, 4], [1, 1, 2], [17]):
+        cases.append(base_case(rng, "chunks", parts, B=1, rank=2))
     # --- chunks: random chunkings of larger streams
     for _ in range(ctx.pick(32, 250)):
         c = rng.random()
